@@ -391,8 +391,11 @@ class ConnectionState:
 
     async def receive_updates(self, cmd: IdleCommand, done: Event) \
             -> Iterable[UntaggedResponse]:
-        selected = await self.session.check_mailbox(
-            self.selected, wait_on=done)
+        selected = self.selected
+        # An EXPUNGE held back by an earlier command is due now, there is no
+        # reason to wait for another change to the mailbox.
+        wait_on = None if selected.has_pending_expunge else done
+        selected = await self.session.check_mailbox(selected, wait_on=wait_on)
         self._selected, untagged = selected.fork(cmd)
         return untagged
 
